@@ -179,6 +179,7 @@ func Run(cfg Config) *hx.Result {
 	}
 	env := Corpus()
 	x := &runner{cfg: cfg, r: r, env: env, b: &Bridge{Env: env}, rng: hx.Rng(cfg.Seed, cfg.Prop)}
+	x.confirmTables()
 	switch cfg.Prop {
 	case "C01":
 		x.runC01()
